@@ -221,21 +221,22 @@ def run_history(kind, hist, tmp, cmd="num-running", early=None):
                     viol.append("server dropped a client right after its handshake while serving")
             elif conns.get(who) is None:
                 pass
-            elif ev == "cmd" and cmd == "wait|num-running" and who == 0:
-                # client 0 parks in a command that waits (until-closed); it must not be answered, and it must
-                # not keep the other client from being served
+            elif ev == "cmd" and cmd in ("wait|num-running", "gac|num-running") and who == 0:
+                # client 0 parks in a command that waits (until-closed, or gather-and-close while a task runs); it must
+                # not be answered, and it must not keep the other client from being served
                 r, w = conns[who]
-                w.write(b"until-closed\n")
+                waiting = b"until-closed" if cmd == "wait|num-running" else b"gather-and-close"
+                w.write(waiting + b"\n")
                 loop.quiesce()
                 got = bytes(r._buffer)
                 r._buffer.clear()
                 if got and not (stopped and r.at_eof()):
-                    viol.append(("until-closed answered although the pool is not closed", got))
+                    viol.append((waiting.decode() + " answered although the pool is not closed / its task still runs", got))
                 if not r.at_eof():
                     parked.add(who)
             elif ev == "cmd":
                 r, w = conns[who]
-                this_cmd = "num-running" if cmd == "wait|num-running" else cmd
+                this_cmd = "num-running" if cmd in ("wait|num-running", "gac|num-running") else cmd
                 w.write(this_cmd.encode() + b"\n")
                 loop.quiesce()
                 got = bytes(r._buffer)
@@ -293,6 +294,8 @@ def run_history(kind, hist, tmp, cmd="num-running", early=None):
                 break
         if pool.num_running != expected_running:
             viol.append(("pool disturbed", pool.num_running, expected_running))
+        if vw.ACTIVE.cancels:
+            viol.append(("a pool task was cancelled although no client asked for it", vw.ACTIVE.cancels))
     except AssertionError as e:
         viol.append(("harness", str(e)))
     except Exception as e:  # noqa: BLE001
@@ -519,6 +522,8 @@ def run(tier, seed):
         both = [h for h in histories(2) if sum(1 for _, e in h if e == "cmd") == 2]
         hw = [h for h in both if [e for c, e in h if c == 0][-1] == "close" and [e for c, e in h if c == 1][-1] == "close"]
         work += [(kind, hw[i::jobs], "wait|num-running") for i in range(jobs)]
+        # ... and parked in gather-and-close (the pool's one task keeps running): a client leaving must not touch the task
+        work += [(kind, hw[i::jobs], "gac|num-running") for i in range(jobs)]
         if tier != "quick":
             hs2 = list(histories(1)) + list(histories(2, max_cmds=1))
             work += [(kind, hs2[i::jobs], "start 1") for i in range(jobs)]
